@@ -68,9 +68,6 @@ def populate(E):
 
 MODEL = Model('hooks', define, populate, tags=['hooks'], opts=dict(rel='o2m', pk='int'))
 
-def _op_objflush(self, label):
-    self.resolve(label).flush()
-sx.Exec.op_objflush = _op_objflush
 
 INS = re.compile(r'INSERT INTO "(\w+)" \(([^)]*)\)')
 UPD = re.compile(r'UPDATE "(\w+)"\s+SET (.*?)\s+WHERE', re.S)
@@ -130,7 +127,7 @@ def worker(args):
     before, after, tier, seed, fixture = args
     sub = core.Sub()
     env = sx.Env(MODEL)
-    ops = [op for op in env.ops() if op[0] in ('create', 'set', 'setm', 'add', 'remove', 'delete', 'clear', 'assign') and op[1] != 'L'
+    ops = [op for op in env.ops() if op[0] in ('create', 'set', 'add', 'remove', 'delete', 'clear', 'assign') and op[1] != 'L'
            and not (op[0] == 'create' and op[1] == 'L')]
     enders = [('flush',), ('commit',)] + [('objflush', l) for l in ('A:1', 'A:3', 'B:1', 'B:3')]
     ex = sx.Explorer(env, fixtures=(fixture,), ops=ops + enders)
@@ -180,7 +177,7 @@ def worker(args):
         presigs[pre] = sig
         sub.violation(sig, dict(before=before, after=after, fixture=fixture, history=small, events=events(run_cfg(small))), '; '.join(bad2))
     CFG.update(before='nothing', after='nothing')
-    ex.run(1 if tier == 'quick' else 2, visit, order=sx.seeded_order(seed), last_only=lambda op: op in enders)
+    ex.run(2, visit, order=sx.seeded_order(seed), last_only=lambda op: op in enders)
     env.close()
     for s in ex.samples: sub.sample(s)
     return dict(sub=sub.dump(), states=ex.states, transitions=ex.transitions, executions=ex.executions + sub.counters.get('flush_histories', 0))
